@@ -207,6 +207,50 @@ class RealCase:
             return ("error", type(e).__name__)
         return ("ok", conv, stub)
 
+    # histories: several requests on one retort ---------------------------------------------
+    def new_retort(self, recipe_json):
+        from adaptix import conversion as cv
+        return cv.ConversionRetort(recipe=[self.provider(p) for p in recipe_json])
+
+    def extend_retort(self, retort, recipe_json):
+        return retort.extend(recipe=[self.provider(p) for p in recipe_json])
+
+    def request(self, retort, step, sig):
+        """one request of a history, made exactly as a user writes it: `retort` is a ConversionRetort, or None
+        for the module-level functions of adaptix.conversion (the global retort); the providers of the per-call
+        recipe are built anew for every request. Same result triple as `create`."""
+        from adaptix import ProviderNotFoundError
+        from adaptix import conversion as cv
+        target = cv if retort is None else retort
+        recipe = [self.provider(p) for p in step["recipe"]]
+        src_t, dst_t = self.u.py_type(sig["params"][0]["ty"]), self.u.py_type(sig["ret"])
+        op = step["op"]
+        stub = None
+        try:
+            if op == "get":
+                if recipe:
+                    conv = target.get_converter(src_t, dst_t, recipe=recipe, name=step.get("name"))
+                else:
+                    conv = target.get_converter(src_t, dst_t, name=step.get("name"))
+            elif op == "convert":
+                if recipe:
+                    def conv(src_obj, _dst=dst_t, _recipe=recipe):
+                        return target.convert(src_obj, _dst, recipe=_recipe)
+                else:
+                    def conv(src_obj, _dst=dst_t):
+                        return target.convert(src_obj, _dst)
+            elif op == "impl":
+                self.case = {**self.case, "sig": sig, "fname": step.get("name")}
+                stub = self.make_stub()
+                conv = target.impl_converter(recipe=recipe)(stub) if recipe else target.impl_converter(stub)
+            else:
+                raise ValueError(op)
+        except ProviderNotFoundError:
+            return ("not_found",)
+        except Exception as e:  # noqa: BLE001
+            return ("error", type(e).__name__)
+        return ("ok", conv, stub)
+
     def observe_linkings(self):
         """the linkings ModelCoercerProvider fetches for the *top-level* model pair, observed by a subclass
         placed at the head of the recipe (it is the same provider, only recording); None when no converter"""
